@@ -64,10 +64,18 @@ func shortStack() string {
 	lines := strings.Split(s, "\n")
 	var keep []string
 	for _, l := range lines {
-		if strings.Contains(l, "/libvore/") || strings.Contains(l, "vore/main.go") {
-			keep = append(keep, strings.TrimSpace(l))
+		l = strings.TrimSpace(l)
+		// keep "file.go:line" of repository frames only (no addresses, no arguments)
+		if (strings.Contains(l, "/libvore/") || strings.Contains(l, "vore/main.go")) && strings.Contains(l, ".go:") {
+			if i := strings.Index(l, " +0x"); i > 0 {
+				l = l[:i]
+			}
+			if i := strings.Index(l, "/libvore/"); i >= 0 {
+				l = l[i+1:]
+			}
+			keep = append(keep, l)
 		}
-		if len(keep) >= 6 {
+		if len(keep) >= 4 {
 			break
 		}
 	}
